@@ -87,6 +87,12 @@ func c07Gen(r *verifh.Rand, i int) interface{} {
 	if r.Bool(1, 10) && m > 0 { // backend announces more than it sends
 		sc.Backend.Body.Enc = "lie"
 		sc.Backend.Body.Decl = m + r.PickInt(1, 5, respLim)
+		// ... also behind the Proxy's gzip compressor (client accepts gzip): the declared length is hidden
+		// from FetchPayload there, the short read must surface through the compressor
+		if r.Bool(1, 2) {
+			sc.Cfg.Compression = r.PickInt(0, 0, 1)
+			sc.Hdrs = append(sc.Hdrs, [2]string{"Accept-Encoding", r.Pick("gzip", "gzip, deflate")})
+		}
 	}
 	if r.Bool(1, 25) {
 		sc.Method = "HEAD"
